@@ -566,6 +566,7 @@ func init() {
 	reg(coldFam(), 8)
 	reg(blindFam(), 4)
 	reg(csidhFam(), 2)
+	reg(decodersFam(), 12)
 	reg(groupFam(group.P256, "P256"), 6)
 	reg(groupFam(group.Ristretto255, "ristretto255"), 4)
 	// a Prio3 instance keeps a mutable XOF state and is owned by one party: it is neither a
